@@ -93,6 +93,18 @@ def mnemonicOps : List (String × Op) := [
         pure (outBytes (Prim.pbkdf2HmacSha512 (sentenceStr ws) salt 2048 64))
       pure (reply r id)
     | _ => none),
+  ("subseed", fun a => match a with        -- Substrate: PBKDF2 with the entropy as password
+    | [l, s, o, salt] => do
+      let lang ← argLang Gen.bip39Langs l
+      let s ← argText s
+      let o ← argOracle o
+      let salt ← argBytes salt
+      let r : R String := do
+        let ws ← bip39Sentence o s
+        let ent ← bip39Decode Prim.sha256 bip39Langs lang ws
+        pure (outBytes (Prim.pbkdf2HmacSha512 ent salt 2048 64))
+      pure (reply r id)
+    | _ => none),
   ("monenc", fun a => match a with
     | [l, e, ck] => do
       let (wl, k) ← (← argMoneroLang l)
